@@ -244,7 +244,8 @@ void vmain(void)
 
   if (off > 0) WITNESS("vdom_prepend_stripped");
   if (has_at && in_vd && in_prelen && off == 0) WITNESS("vdom_entry_not_applicable");
-  if (has_at && in_vd && in_keylen == 2 && in_key[0] == '.' && off > 0) WITNESS("wildcard_entry");
+  if (has_at && in_vd && in_keylen == 2 && in_key[0] == '.' && off > 0 && in_prelen + 1 <= at && RL - at - 1 > 2)
+    WITNESS("wildcard_entry");                      /* .x controls a.x */
   if (PL >= 3 && in_report[0] == '\n' && in_report[1] == '\n' && in_report[2] == '<') WITNESS("report_with_blank_lines");
   if (PL >= 2 && in_report[PL - 1] == '\n' && in_report[PL - 2] == '\n') WITNESS("report_ends_in_two_lf");
   if (RL >= 1 && in_recip[0] == '\n') WITNESS("recipient_with_lf");
